@@ -177,6 +177,37 @@ def main():
         pads = [st for st in sl.padded_styles(sep) if st != 'joined-padded']
         style = rng.choice(pads) if pads and rng.random() < 0.6 else 'compact'
         cases.append(make_case(trees, sep, style, rng, 'trees-%s-%s' % (fam, style), tail=TAILS[(k // len(SEPS)) % len(TAILS)]))
+    # homographs: word tokens with the same surface string but another syllabification or another grouping
+    # of the characters into phones ('a.ba' / 'ab.a', 'tʃ ɪ' / 't ʃ ɪ'): every token counts with its own hierarchy
+    for k in range(120 if ck.thorough else 24):
+        sep = SEPS[k % len(SEPS)]
+        phones = ['a', 'b', 'ab', 'ba'] if k % 2 else ['t', 'ʃ', 'tʃ', 'ɪ']
+        base = [rng.choice(phones) for _ in range(rng.randint(3, 5))]
+
+        def regroup(seq):
+            # another hierarchy for the same characters: re-cut the character string into phones, then into syllables
+            chars, out, i = ''.join(seq), [], 0
+            while i < len(chars):
+                n = 2 if chars[i:i + 2] in phones and rng.random() < 0.5 else 1
+                out.append(chars[i:i + n])
+                i += n
+            syls, j = [], 0
+            while j < len(out):
+                n = rng.randint(1, 2)
+                syls.append(out[j:j + n])
+                j += n
+            return syls
+        variants = [regroup(base) for _ in range(4)]
+        other = [sl.rand_tree(rng, phones, nwords=1)[0] for _ in range(3)]
+        words = [rng.choice(variants + other) for _ in range(rng.randint(12, 20))]
+        trees = []
+        while words:
+            n = rng.randint(1, 5)
+            trees.append(words[:n])
+            words = words[n:]
+        if not all(sl.tree_ok(t, sep) for t in trees):
+            continue
+        cases.append(make_case(trees, sep, 'compact', rng, 'homographs', tail=rng.choice(TAILS)))
     # every total number of word tokens in a range (hapaxes and twice-seen words included): the statistics
     # are ratios of counts, and float formulas that recover counts from probabilities go wrong only at some totals
     for W in range(40, 261 if ck.thorough else 111):
